@@ -240,10 +240,33 @@ theorem C07_fail_off (o : Opts) (oc : Outcome) (hf : o.fail = false) :
     solveCodeOverride o oc = none ∧ (warningIssued o oc = true ↔ oc.hasReport = true) := by
   unfold solveCodeOverride warningIssued; cases oc.hasReport <;> simp [hf]
 
-/-- **C07_infeas_skip**: a solution known to be infeasible is not checked unless `sol:chk:infeas` -/
-theorem C07_infeas_skip (m : Model) (o : Opts) (xs objv : List Rat) (hi : o.infeas = false) :
+/-- a solution flagged as known infeasible is not checked unless `sol:chk:infeas` -/
+theorem C07_infeas_flag_skip (m : Model) (o : Opts) (xs objv : List Rat) (hi : o.infeas = false) :
     checkSolution m o xs objv true = .skipped ∧ (checkSolution m o xs objv true).hasReport = false := by
   unfold checkSolution; simp [hi, Outcome.hasReport]
+
+/-- **C07_infeas_skip**: in terms of the solver's status, the check is skipped *exactly* for the codes of
+`IsProblemInfeasible` (200..299) without `sol:chk:infeas` — not for unbounded (300..399), undecided (450..469), limit,
+failure or solved statuses -/
+theorem C07_infeas_skip (m : Model) (o : Opts) (xs objv : List Rat) (code : Int) :
+    checkSolutionCode m o xs objv code = .skipped ↔ ((200 ≤ code ∧ code ≤ 299) ∧ o.infeas = false) := by
+  unfold checkSolutionCode checkSolution isProblemInfeasible
+  by_cases h1 : 200 ≤ code <;> by_cases h2 : code ≤ 299 <;> cases hi : o.infeas <;> simp [h1, h2, hi]
+
+/-- for every other status (or with `sol:chk:infeas`) the point is checked: no report iff all selected tests pass -/
+theorem C07_checked_for_code (m : Model) (o : Opts) (xs objv : List Rat) (code : Int)
+    (h : ¬ ((200 ≤ code ∧ code ≤ 299) ∧ o.infeas = false)) :
+    (checkSolutionCode m o xs objv code).hasReport = false ↔
+      ((o.mode &&& 31 ≠ 0 → ∀ c ∈ passCands m o xs objv [] false, c.violated = false) ∧
+       (o.mode &&& 992 ≠ 0 →
+         ∀ c ∈ passCands m o (recompute m o xs) objv (xBack m o xs) true, c.violated = false)) := by
+  unfold checkSolutionCode
+  rw [C07_iff]
+  have hk : ¬ (isProblemInfeasible code = true ∧ o.infeas = false) := by
+    unfold isProblemInfeasible
+    simp only [Bool.and_eq_true, decide_eq_true_eq]
+    exact h
+  simp [hk]
 
 /-! ## 6. recomputation of auxiliary variables -/
 
